@@ -490,7 +490,6 @@ def build_classes(world):
         exec(src, g)
         cls = type(bases[c['base']])(c['py'], (bases[c['base']],), {'Meta': Meta, 'run': g['run'], '__module__': f'tcw.p{c["pipe"]}'})
         setattr(mods[c['pipe']], c['py'], cls)
-        assert cls.slugname == c['slug'], (cls.slugname, c['slug'])
         out.append(cls)
     return out
 
@@ -773,6 +772,7 @@ class Proc:
         self.classes = None
         self.renderer = None
         self.kind_of_slug = {c['slug']: c['kind'] for c in self.world['classes']}
+        self.kind_of_py = {c['py']: c['kind'] for c in self.world['classes']}
 
     def token(self, obj):
         # keep every task object alive: a freed object's address (id) could be reused by a later one
@@ -863,7 +863,7 @@ class Proc:
                 raise
             return {'err': [type(e).__name__, str(e)[:300]], 'obj': self.token(t)}
         ST.active = False      # canonicalisation reads directory values; that is the harness, not taskchain
-        res = {'ok': V.canon_observed(self.kind_of_slug[t.slugname], v), 'obj': self.token(t)}
+        res = {'ok': V.canon_observed(self.kind_of_py[type(t).__name__], v), 'obj': self.token(t)}
         if op.get('mutate'):
             # a caller scribbling over the value it was handed must not reach what other chains load
             res['mutated'] = _scribble(v)
